@@ -154,9 +154,14 @@ class PageDatabase:
         self, *others: Dict[FileId, List[Diagnostic]]
     ) -> Dict[FileId, List[Diagnostic]]:
         with self._lock:
-            result: Dict[FileId, List[Diagnostic]] = {
-                v[1]: list(v[2]) for v in self._parsed.values()
-            }
+            # A source file may generate several output pages. Diagnostics about the source
+            # itself are the same objects in every output's list, while each output may also
+            # carry diagnostics of its own: accumulate over all outputs, each object once.
+            result: Dict[FileId, List[Diagnostic]] = {}
+            for _, source, diagnostics in self._parsed.values():
+                merged = result.setdefault(source, [])
+                seen = {id(d) for d in merged}
+                merged.extend(d for d in diagnostics if id(d) not in seen)
 
             for key, diagnostics in self._orphan_diagnostics.items():
                 if key in result:
